@@ -21,7 +21,7 @@
 mod common;
 
 use common::*;
-use h_core::util::{guarded, read_ndjson, seed_from_env};
+use h_core::util::{read_ndjson, seed_from_env};
 use rand::Rng;
 use rand::seq::SliceRandom;
 use rand_chacha::ChaCha8Rng;
@@ -29,7 +29,7 @@ use serde_json::{Value, json};
 use zcash_address::unified::{self, Encoding};
 use zcash_address::{ConversionError, ToAddress, ZcashAddress};
 
-const MAX_MISMATCHES: usize = 25;
+const MAX_MISMATCHES: usize = 80;
 
 #[derive(Default)]
 struct Stats {
@@ -60,7 +60,15 @@ impl Stats {
 }
 
 fn clip(s: &str) -> String {
-    if s.len() <= 400 { s.to_string() } else { format!("{}...({} chars)...{}", &s[..200], s.len(), &s[s.len() - 100..]) }
+    // ASCII only (Rust escapes for everything else: no line separators in the one-line summary), long ones cut
+    let n = s.chars().count();
+    if n <= 400 {
+        s.chars().flat_map(|c| c.escape_default()).collect()
+    } else {
+        let head: String = s.chars().take(200).flat_map(|c| c.escape_default()).collect();
+        let tail: String = s.chars().skip(n - 100).flat_map(|c| c.escape_default()).collect();
+        format!("{head}...({n} chars)...{tail}")
+    }
 }
 
 // ------------------------------------------------------------------------------------------------
@@ -208,7 +216,7 @@ enum Decoded {
 }
 
 fn decode_with(dec: &str, s: &str) -> Decoded {
-    let r = guarded(|| match dec {
+    let r = cut(|| match dec {
         "addr" => unified::Address::decode(s)
             .map(|(n, v)| (net_name(n), ua_items(&v), v.encode(&n)))
             .map_err(|e| format!("{e:?}")),
@@ -349,7 +357,7 @@ fn run_uc(seed: u64, c: &Value, st: &mut Stats) {
         let typed_f: Vec<unified::Fvk> = if kind == "fvk" { m.items.iter().map(|i| typed_fvk(i).expect("harness: typed item")).collect() } else { vec![] };
         let typed_i: Vec<unified::Ivk> = if kind == "ivk" { m.items.iter().map(|i| typed_ivk(i).expect("harness: typed item")).collect() } else { vec![] };
         let encodable = own.is_some();
-        let r = guarded(|| -> Result<(Vec<RawItem>, Option<String>, bool), String> {
+        let r = cut(|| -> Result<(Vec<RawItem>, Option<String>, bool), String> {
             match kind {
                 "addr" => {
                     let v = unified::Address::try_from_items(typed_r).map_err(|e| format!("{e:?}"))?;
@@ -434,8 +442,6 @@ fn ill_items(rng: &mut ChaCha8Rng) -> Vec<RawItem> {
     t.iter().map(|(tc, n)| RawItem { typecode: *tc, data: rand_bytes(rng, *n) }).collect()
 }
 
-const OTHER_HRPS: [&str; 10] = ["bc", "tb", "zsx", "uu", "utes", "zview", "zxviews", "zxviewtestsapling", "uregtes", "texx"];
-
 struct StrMat {
     string: String,
     trimmed: String,
@@ -472,7 +478,12 @@ fn materialise_str(s: &Value, rng: &mut ChaCha8Rng) -> StrMat {
         "bech" => {
             let fam = s["hrp"]["fam"].as_str().unwrap();
             let net = s["hrp"]["net"].as_str().unwrap();
-            let hrp: &str = if fam == "other" { OTHER_HRPS[rng.gen_range(0..OTHER_HRPS.len())] } else { hrp_of(fam, net) };
+            let foreign = match fam {
+                "other" => foreign_hrp(rng),
+                "uaLonger" => longer_hrp(hrp_of("ua", net), rng),
+                _ => String::new(),
+            };
+            let hrp: &str = if foreign.is_empty() { hrp_of(fam, net) } else { &foreign };
             let data: Vec<u8> = match s["payload"].as_str().unwrap() {
                 "ua_wf" => {
                     let its = wf_items(rng);
@@ -601,7 +612,7 @@ struct Parsed {
 }
 
 fn parse_and_observe(m: &StrMat) -> Parsed {
-    let r = guarded(|| ZcashAddress::try_from_encoded(&m.string).map(|a| (observe(&a), a.encode())).map_err(|e| format!("{e:?}")));
+    let r = cut(|| ZcashAddress::try_from_encoded(&m.string).map(|a| (observe(&a), a.encode())).map_err(|e| format!("{e:?}")));
     match r {
         Err(p) => Parsed { out: "panic", kind: "-", net: "-", canon: false, data_ok: false, detail: clip(&p) },
         Ok(Err(e)) => Parsed { out: "reject", kind: "-", net: "-", canon: false, data_ok: false, detail: e },
@@ -616,10 +627,10 @@ fn parse_and_observe(m: &StrMat) -> Parsed {
     }
 }
 
-fn run_str(seed: u64, c: &Value, st: &mut Stats) {
+fn run_str(seed: u64, c: &Value, rep: u32, st: &mut Stats) {
     let s = &c["s"];
     let exp = &c["exp"];
-    let mut rng = case_rng(seed, &format!("str|{s}"));
+    let mut rng = case_rng(seed, &format!("str|{s}|{rep}"));
     let m = materialise_str(s, &mut rng);
     st.str_cases += 1;
     let p = parse_and_observe(&m);
@@ -645,7 +656,7 @@ fn run_str(seed: u64, c: &Value, st: &mut Stats) {
         bad = Some(format!("accepted as {} on {} (re-encodes to {})", p.kind, p.net, clip(&p.detail)));
     }
     if let Some(what) = bad {
-        st.mismatch(json!({"T": "str", "case": c, "expected": exp, "what": what, "string": clip(&m.string)}));
+        st.mismatch(json!({"T": "str", "case": c, "rep": rep, "expected": exp, "what": what, "string": clip(&m.string)}));
     }
 }
 
@@ -668,7 +679,7 @@ fn own_encode(kind: &str, net: &str, data: &[u8], items: &[RawItem], rng: &mut C
 
 fn build_value(kind: &str, net: &str, data: &[u8], items: &[RawItem]) -> Result<ZcashAddress, String> {
     let n = net_type(net);
-    guarded(|| match kind {
+    cut(|| match kind {
         "sprout" => ZcashAddress::from_sprout(n, data.try_into().unwrap()),
         "sapling" => ZcashAddress::from_sapling(n, data.try_into().unwrap()),
         "p2pkh" => ZcashAddress::from_transparent_p2pkh(n, data.try_into().unwrap()),
@@ -700,7 +711,7 @@ fn run_val(seed: u64, c: &Value, st: &mut Stats) {
                 st.panics += 1;
                 bad = Some(format!("constructor panicked: {}", clip(&p)));
             }
-            Ok(v) => match guarded(|| v.encode()) {
+            Ok(v) => match cut(|| v.encode()) {
                 Err(p) => {
                     st.panics += 1;
                     bad = Some(format!("encode panicked: {}", clip(&p)));
@@ -717,7 +728,7 @@ fn run_val(seed: u64, c: &Value, st: &mut Stats) {
                             bad = Some(format!("parses back as {} on {}", p.kind, p.net));
                         } else if !p.data_ok || !p.canon {
                             bad = Some("parses back with different data / re-encodes differently".into());
-                        } else if (pkind, pnet) == (kind, net) && guarded(|| ZcashAddress::try_from_encoded(&s) == Ok(v.clone())) != Ok(true) {
+                        } else if (pkind, pnet) == (kind, net) && cut(|| ZcashAddress::try_from_encoded(&s) == Ok(v.clone())) != Ok(true) {
                             bad = Some("parse(encode(v)) != v".into());
                         }
                     }
@@ -740,7 +751,7 @@ fn run_cin(seed: u64, c: &Value, st: &mut Stats) {
     let items = if kind == "unified" { wf_items(&mut rng) } else { vec![] };
     let data = if kind == "unified" { vec![] } else { rand_bytes(&mut rng, legacy_len(kind)) };
     let s = own_encode(kind, net, &data, &items, &mut rng);
-    let r = guarded(|| {
+    let r = cut(|| {
         ZcashAddress::try_from_encoded(&s).map_err(|e| format!("{e:?}")).map(|a| match a.convert_if_network::<Obs>(net_type(want)) {
             Ok(o) => Ok(o),
             Err(ConversionError::IncorrectNetwork { .. }) => Err("IncorrectNetwork".to_string()),
@@ -784,32 +795,79 @@ fn check_table(t: &Value) {
     assert_eq!(t["jumbleMax"].as_u64().unwrap() as usize, JUMBLE_MAX);
 }
 
+impl Stats {
+    fn merge(&mut self, o: Stats) {
+        self.uc_cases += o.uc_cases;
+        self.uc_strings += o.uc_strings;
+        self.uc_decodes += o.uc_decodes;
+        self.uc_accepts += o.uc_accepts;
+        self.uc_tfi += o.uc_tfi;
+        self.uc_tfi_accepts += o.uc_tfi_accepts;
+        self.reason_checked += o.reason_checked;
+        self.reason_in_set += o.reason_in_set;
+        self.str_cases += o.str_cases;
+        self.str_accepts += o.str_accepts;
+        self.val_cases += o.val_cases;
+        self.cin_cases += o.cin_cases;
+        self.panics += o.panics;
+        self.mismatch_count += o.mismatch_count;
+        for m in o.mismatches {
+            if self.mismatches.len() < MAX_MISMATCHES {
+                self.mismatches.push(m);
+            }
+        }
+    }
+}
+
 fn main() {
     let args: Vec<String> = std::env::args().collect();
     if args.len() < 2 {
-        eprintln!("usage: c10_replay <cases.ndjson>");
+        eprintln!("usage: c10_replay <cases.ndjson> [reps-per-string-class]");
         std::process::exit(2);
     }
+    let reps: u32 = args.get(2).map(|s| s.parse().expect("reps")).unwrap_or(1);
     let seed = seed_from_env();
     harness_hook();
     let cases = read_ndjson(&args[1]);
-    let mut st = Stats::default();
     let mut tables = 0;
     for c in &cases {
-        match c["T"].as_str().unwrap_or("") {
-            "table" => {
-                check_table(c);
-                tables += 1;
-            }
-            "uc" => run_uc(seed, c, &mut st),
-            "str" => run_str(seed, c, &mut st),
-            "val" => run_val(seed, c, &mut st),
-            "cin" => run_cin(seed, c, &mut st),
-            t => {
-                eprintln!("harness: unknown case type {t}");
-                std::process::exit(2);
-            }
+        if c["T"] == "table" {
+            check_table(c);
+            tables += 1;
         }
+    }
+    let work: Vec<&Value> = cases.iter().filter(|c| c["T"] != "table").collect();
+    let threads = std::thread::available_parallelism().map(|n| n.get()).unwrap_or(4).min(8).max(1);
+    let chunk = work.len().div_ceil(threads).max(1);
+    let mut st = Stats::default();
+    // chunks are contiguous and merged in order, so the reported mismatches do not depend on scheduling
+    let parts: Vec<Stats> = std::thread::scope(|sc| {
+        let hs: Vec<_> = work
+            .chunks(chunk)
+            .map(|part| {
+                sc.spawn(move || {
+                    let mut st = Stats::default();
+                    for c in part {
+                        match c["T"].as_str().unwrap_or("") {
+                            "uc" => run_uc(seed, c, &mut st),
+                            "str" => {
+                                for rep in 0..reps {
+                                    run_str(seed, c, rep, &mut st)
+                                }
+                            }
+                            "val" => run_val(seed, c, &mut st),
+                            "cin" => run_cin(seed, c, &mut st),
+                            t => panic!("harness: unknown case type {t}"),
+                        }
+                    }
+                    st
+                })
+            })
+            .collect();
+        hs.into_iter().map(|h| h.join().unwrap_or_else(|_| std::process::exit(3))).collect()
+    });
+    for p in parts {
+        st.merge(p);
     }
     println!(
         "{}",
